@@ -799,7 +799,28 @@ func ruleEnvParser(c *Ctx, rx *PkgIndex, rule string) {
 		}
 		nStore++
 		if !sameVar(info, call.Args[1], val) {
-			okStore = false
+			// or a variable that only ever receives the decoder's output or the raw text (the result of a helper written out in place)
+			w, nw := objOf(info, call.Args[1]), 0
+			okW := w != nil
+			inspectNoLit(fn.Body(), func(m ast.Node) bool {
+				as, isAs := m.(*ast.AssignStmt)
+				if !isAs {
+					return true
+				}
+				for i, l := range as.Lhs {
+					if w == nil || !sameVar(info, l, w) {
+						continue
+					}
+					nw++
+					if len(as.Lhs) != len(as.Rhs) || !(sameVar(info, as.Rhs[i], val) || sameVar(info, as.Rhs[i], raw)) {
+						okW = false
+					}
+				}
+				return true
+			})
+			if !okW || nw == 0 {
+				okStore = false
+			}
 		}
 		return true
 	})
